@@ -194,6 +194,9 @@ pub fn run_case(case: &TrainCase) -> TrainRun {
             }
         };
         run.built = true;
+        if case.train.consist_limits_off {
+            sim.loco_con.set_assert_limits(false);
+        }
         let r = catch(|| sim.walk());
         match r {
             Ok(Ok(())) => {}
@@ -233,6 +236,9 @@ pub fn run_case(case: &TrainCase) -> TrainRun {
             }
         };
         run.built = true;
+        if case.train.consist_limits_off {
+            sim.loco_con.set_assert_limits(false);
+        }
         if let Some((t, c)) = case.brake_ramp_up {
             sim.fric_brake.ramp_up_time = altrios_core::uc::S * t;
             sim.fric_brake.ramp_up_coeff = altrios_core::uc::R * c;
